@@ -21,6 +21,7 @@ import (
 	"encoding/base64"
 	"fmt"
 	"math"
+	"os"
 	"reflect"
 	"regexp"
 	"sort"
@@ -209,9 +210,37 @@ var c35Starters = []string{"- ", "? ", ": ", "#", "&a ", "*a", "!t ", "!!binary 
 var c35Infix = []string{": ", " #", "\n", "\n\n", "\r\n", "\r", "\t", "\x00", "\x01", "\x1b", "\x7f", "\u0085", "\u2028", "\u2029", "\ufeff",
 	"\xff", "\xc0\x80", "\xe2\x82", "\xed\xa0\x80", "\n---\n", "\n...\n", "\n  ", "\n\t", " \n", "\n ", "'", "\"", "\\", "\\n", "}", "]", ",", "*", "&", "|", ">", "%"}
 
+// c35Shapes are (prefix, suffix) wrappers that make a value look like syntax some layer of a
+// configuration system treats specially: variable references of the config loader itself,
+// other templating / secret-reference schemes, already-redacted markers, YAML tags, anchors
+// and aliases, quoting, hash prefixes, comments. \x01 stands for a random identifier.
+var c35Shapes = [][2]string{
+	{"${", "}"}, {"${", ":-}"}, {"${", ":-default}"}, {"${\x01:-", "}"}, {"${\x01}", "{\x01}"}, {"${\x01}", "}"}, {"${\x01}", ""}, {"", "${\x01}"},
+	{"$", ""}, {"${", ""}, {"", "}"}, {"$(", ")"}, {"$((", "))"}, {"%", "%"}, {"%{", "}"}, {"{{", "}}"}, {"{{ .\x01 }}", ""}, {"#{", "}"},
+	{"<", ">"}, {"[", "]"}, {"{", "}"}, {"(", ")"}, {"\"", "\""}, {"'", "'"}, {"`", "`"},
+	{"[REDACTED]", ""}, {"", "[REDACTED]"}, {"[REDACTED", "]"}, {"[REDACTED] ", " [REDACTED]"}, {"***", "***"}, {"*", ""}, {"xxxx", "xxxx"},
+	{"<redacted>", ""}, {"REDACTED:", ""}, {"(hidden)", ""},
+	{"!!binary ", ""}, {"!!str ", ""}, {"!secret ", ""}, {"&a ", ""}, {"*a", ""}, {"<<: ", ""}, {"~", ""}, {"null ", ""},
+	{"ENC[", "]"}, {"vault:", ""}, {"file:", ""}, {"env:", ""}, {"base64:", ""}, {"$2a$10$", ""}, {"$argon2id$v=19$", ""}, {"sha256:", ""},
+	{"-----BEGIN ", "-----"}, {" ", " "}, {"\t", ""}, {"", " "}, {"#", ""}, {"//", ""}, {"0x", ""}, {"-", ""}, {"--", ""}, {"@", ""}, {"=", ""}, {"\\", ""},
+}
+
+func c35Shaped(rng *verifkit.Rand, core string) string {
+	sh := verifkit.Pick(rng, c35Shapes)
+	id := func(x string) string { return strings.ReplaceAll(x, "\x01", "V"+rng.Token(rng.Range(1, 5))) }
+	return id(sh[0]) + core + id(sh[1])
+}
+
 // c35Hostile builds a string around core (may be ""): decoration comes from the case PRNG.
-// level 0 = printable single-line text only, 1 = everything.
+// level 0 = printable single-line text only, 1 = everything, 2 = syntax-shaped values only
+// (secrets only). Levels 0 and 1 mix in syntax-shaped secrets as well.
 func c35Hostile(rng *verifkit.Rand, core string, level int) string {
+	if core != "" && (level == 2 || rng.Chance(1, 4)) {
+		return c35Shaped(rng, core)
+	}
+	if level == 2 {
+		level = 0
+	}
 	if level == 0 {
 		if core == "" {
 			if rng.Chance(1, 6) {
@@ -668,6 +697,8 @@ func TestVerif_C35(t *testing.T) {
 		{"plain", r.N(500, 10000), c35Opts{level: 0, secretLevel: 0}, 3},
 		{"benign", r.N(900, 25000), c35Opts{level: 0, secretLevel: 1}, 3},
 		{"hostile", r.N(1200, 50000), c35Opts{level: 1, secretLevel: 1}, 3},
+		// every secret has a syntax-shaped value (variable reference, redaction marker, YAML tag ...)
+		{"shaped", r.N(400, 15000), c35Opts{level: 0, secretLevel: 2}, 3},
 	}
 	for _, ph := range phases {
 		ph := ph
@@ -695,15 +726,16 @@ func TestVerif_C35(t *testing.T) {
 	if len(insts) == 0 {
 		r.Inconclusive("no secret leaf instance found for the solo phase")
 	} else {
-		rounds := r.N(6, 60)
+		rounds := r.N(9, 90)
 		r.ParCases("solo", rounds*len(insts), 4, func(ci int, rng *verifkit.Rand) {
-			o := c35Opts{mode: "only", target: insts[ci%len(insts)], listLen: 3, level: (ci / len(insts)) % 2, secretLevel: (ci / len(insts) / 2) % 2}
+			round := ci / len(insts)
+			o := c35Opts{mode: "only", target: insts[ci%len(insts)], listLen: 3, level: round % 2, secretLevel: round % 3}
 			c35Case(r, "solo", ci, rng, o, 1)
 		})
 	}
 	// "category": all leaves of exactly one statement category, everything else unset.
 	r.ParCases("category", r.N(20, 200)*len(c35Categories), 4, func(ci int, rng *verifkit.Rand) {
-		o := c35Opts{mode: "category", target: c35Categories[ci%len(c35Categories)].Name, level: rng.Intn(2), secretLevel: rng.Intn(2)}
+		o := c35Opts{mode: "category", target: c35Categories[ci%len(c35Categories)].Name, level: rng.Intn(2), secretLevel: rng.Intn(3)}
 		if rng.Bool() {
 			o.listLen = rng.Range(1, 3)
 		}
@@ -711,17 +743,36 @@ func TestVerif_C35(t *testing.T) {
 	})
 	// "sparse": each secret leaf present with a small probability (incl. none at all).
 	r.ParCases("sparse", r.N(900, 30000), 4, func(ci int, rng *verifkit.Rand) {
-		o := c35Opts{mode: "prob", den: 24, num: verifkit.Pick(rng, []int{0, 1, 1, 2, 3, 6}), level: rng.Intn(2), secretLevel: rng.Intn(2)}
+		o := c35Opts{mode: "prob", den: 24, num: verifkit.Pick(rng, []int{0, 1, 1, 2, 3, 6}), level: rng.Intn(2), secretLevel: rng.Intn(3)}
 		c35Case(r, "sparse", ci, rng, o, 1)
 	})
 	// "lists": secrets only inside list entries (peers / listeners / socks5 users).
 	r.ParCases("lists", r.N(400, 15000), 4, func(ci int, rng *verifkit.Rand) {
-		o := c35Opts{mode: "lists", den: 12, num: verifkit.Pick(rng, []int{1, 2, 4, 12}), level: rng.Intn(2), secretLevel: rng.Intn(2)}
+		o := c35Opts{mode: "lists", den: 12, num: verifkit.Pick(rng, []int{1, 2, 4, 12}), level: rng.Intn(2), secretLevel: rng.Intn(3)}
 		if rng.Bool() {
 			o.listLen = rng.Range(1, 3)
 		}
 		c35Case(r, "lists", ci, rng, o, 1)
 	})
+	// "parse": secrets reach the configuration through the real loader (Parse: variable
+	// expansion + YAML + validation), with the referenced variables unset.
+	// calibration: which secret fields does validation accept when they hold a reference?
+	var parseOK, parseRejected []string
+	for _, f := range c35ParseFields {
+		if _, err := config.Parse([]byte(c35ParseDoc(map[string]string{f: "${VERIF_C35_UNSET_" + "x}"}))); err == nil {
+			parseOK = append(parseOK, f)
+		} else {
+			parseRejected = append(parseRejected, f)
+		}
+	}
+	r.Set("parse_fields_accepting_a_reference", parseOK)
+	r.Set("parse_fields_rejected_by_validation_when_holding_a_reference", parseRejected)
+	if len(parseOK) == 0 {
+		r.Inconclusive("Parse accepts no secret field holding a variable reference (document template out of date?)")
+	}
+	r.ParCases("parse", r.N(500, 20000), 4, func(ci int, rng *verifkit.Rand) { c35ParseCase(r, ci, rng, parseOK) })
+	r.Require("parse_configs_judged", 150)
+	r.Require("parse_secrets_left_as_unexpanded_reference", 100)
 	for _, c := range c35Categories {
 		r.Require("configs_with_only_category:"+c.Name, 20)
 	}
@@ -735,11 +786,20 @@ func TestVerif_C35(t *testing.T) {
 }
 
 func c35Case(r *verifkit.R, phase string, ci int, rng *verifkit.Rand, o c35Opts, minSecrets int) {
-	level := o.level
 	seed := rng.U64()
 	unsup := map[string]bool{}
 	cfg, cores := c35Build(verifkit.NewRand(seed), o, unsup)
-	twin, _ := c35Build(verifkit.NewRand(seed), o, unsup)
+	rebuild := func() *config.Config {
+		c, _ := c35Build(verifkit.NewRand(seed), o, unsup)
+		return c
+	}
+	c35JudgeConfig(r, phase, ci, cfg, cores, rebuild, minSecrets, o.level)
+}
+
+// c35JudgeConfig applies the oracle to one configuration. rebuild returns a fresh, equal
+// configuration (the untouched twin, and the working copy of the root-cause minimiser).
+func c35JudgeConfig(r *verifkit.R, phase string, ci int, cfg *config.Config, cores map[string]string, rebuild func() *config.Config, minSecrets, level int) {
+	twin := rebuild()
 	before := c35Dump(cfg)
 	if before != c35Dump(twin) {
 		r.Inconclusive("harness: twin configuration differs from original before the call")
@@ -832,7 +892,7 @@ func c35Case(r *verifkit.R, phase string, ci int, rng *verifkit.Rand, o c35Opts,
 	minimal := "(root-cause analysis is run for the first 12 leaking cases of a run only)"
 	if r.Counter("root_cause_analyses") < 12 {
 		r.Add("root_cause_analyses", 1)
-		work, _ := c35Build(verifkit.NewRand(seed), o, unsup)
+		work := rebuild()
 		culprits = c35Culprits(work, leakFn)
 		minimal = work.StringUnsafe()
 	}
@@ -895,4 +955,159 @@ func c35FirstDiff(a, b string) string {
 		}
 	}
 	return fmt.Sprintf("dump length %d -> %d lines", len(la), len(lb))
+}
+
+// ---------------------------------------------------------------- through the real loader
+
+// c35ParseFields are the statement's secret fields as instance paths of the document built by
+// c35ParseDoc (one peer, one listener, one socks5 user).
+var c35ParseFields = []string{
+	"tls.key", "tls.key_pem", "peers[0].tls.key", "peers[0].tls.key_pem", "listeners[0].tls.key", "listeners[0].tls.key_pem",
+	"peers[0].proxy_auth.password", "socks5.auth.users[0].password", "socks5.auth.users[0].password_hash",
+	"agent.private_key", "shell.password_hash", "file_transfer.password_hash",
+	"management.private_key", "management.signing_private_key",
+}
+
+// c35ParseDoc renders a YAML document in which the selected secret fields hold the given
+// (double-quote-safe) texts; certificates accompany keys so that validation can pass.
+func c35ParseDoc(v map[string]string) string {
+	q := func(k string) string { return "\"" + v[k] + "\"" }
+	has := func(ks ...string) bool {
+		for _, k := range ks {
+			if _, ok := v[k]; ok {
+				return true
+			}
+		}
+		return false
+	}
+	var sb strings.Builder
+	w := func(format string, a ...any) { fmt.Fprintf(&sb, format, a...) }
+	tls := func(indent, prefix string) {
+		if !has(prefix+"tls.key", prefix+"tls.key_pem") {
+			return
+		}
+		w("%stls:\n%s  cert: \"/etc/mm/cert.pem\"\n", indent, indent)
+		if has(prefix + "tls.key") {
+			w("%s  key: %s\n", indent, q(prefix+"tls.key"))
+		}
+		if has(prefix + "tls.key_pem") {
+			w("%s  key_pem: %s\n", indent, q(prefix+"tls.key_pem"))
+		}
+	}
+	w("agent:\n  data_dir: \"./data\"\n")
+	if has("agent.private_key") {
+		w("  private_key: %s\n", q("agent.private_key"))
+	}
+	tls("", "")
+	if has("management.private_key", "management.signing_private_key") {
+		w("management:\n  public_key: \"%s\"\n  signing_public_key: \"%s\"\n", strings.Repeat("ab", 32), strings.Repeat("cd", 32))
+		if has("management.private_key") {
+			w("  private_key: %s\n", q("management.private_key"))
+		}
+		if has("management.signing_private_key") {
+			w("  signing_private_key: %s\n", q("management.signing_private_key"))
+		}
+	}
+	w("listeners:\n  - transport: quic\n    address: \":4433\"\n")
+	tls("    ", "listeners[0].")
+	w("peers:\n  - id: \"%s\"\n    transport: ws\n    address: \"10.0.0.2:443\"\n    path: \"/mesh\"\n", strings.Repeat("0f", 16))
+	if has("peers[0].proxy_auth.password") {
+		w("    proxy: \"http://10.0.0.3:3128\"\n    proxy_auth:\n      username: \"u\"\n      password: %s\n", q("peers[0].proxy_auth.password"))
+	}
+	tls("    ", "peers[0].")
+	if has("socks5.auth.users[0].password", "socks5.auth.users[0].password_hash") {
+		w("socks5:\n  enabled: true\n  auth:\n    enabled: true\n    users:\n      - username: \"a\"\n")
+		if has("socks5.auth.users[0].password") {
+			w("        password: %s\n", q("socks5.auth.users[0].password"))
+		}
+		if has("socks5.auth.users[0].password_hash") {
+			w("        password_hash: %s\n", q("socks5.auth.users[0].password_hash"))
+		}
+	}
+	if has("shell.password_hash") {
+		w("shell:\n  enabled: true\n  password_hash: %s\n", q("shell.password_hash"))
+	}
+	if has("file_transfer.password_hash") {
+		w("file_transfer:\n  enabled: true\n  password_hash: %s\n", q("file_transfer.password_hash"))
+	}
+	return sb.String()
+}
+
+// c35ParseCase writes references to *unset* variables (and other double-quote-safe shaped
+// texts) into a subset of the secret fields of a document, loads it with config.Parse and
+// judges the loaded configuration with the same oracle. The token core is the variable name
+// (or sits next to the reference), so it survives expansion exactly when the loader leaves it.
+func c35ParseCase(r *verifkit.R, ci int, rng *verifkit.Rand, usable []string) {
+	if len(usable) == 0 {
+		return
+	}
+	texts := map[string]string{}
+	want := map[string]string{} // instance path -> core
+	nsel := verifkit.Pick(rng, []int{1, 1, 2, 3, len(usable)})
+	if nsel > len(usable) {
+		nsel = len(usable)
+	}
+	fields := append([]string{}, usable...)
+	verifkit.Shuffle(rng, fields)
+	for i, f := range fields[:nsel] {
+		core := fmt.Sprintf("Zq%02dx%s", i+1, rng.Token(14))
+		if _, set := os.LookupEnv(core); set {
+			continue
+		}
+		id := "V" + rng.Token(6)
+		var t string
+		switch rng.Intn(8) {
+		case 0, 1, 2:
+			t = "${" + core + "}" // reference to an unset variable: left as written
+		case 3:
+			t = "$" + core
+		case 4:
+			t = "${" + id + ":-" + core + "}" // unset with default: the default is the secret
+		case 5:
+			t = "${" + id + "}" + core + "{" + id + "}"
+		case 6:
+			t = "${" + core + "}" + rng.Token(3)
+		default:
+			t = core
+		}
+		texts[f] = t
+		want[f] = core
+	}
+	if len(want) == 0 {
+		return
+	}
+	doc := c35ParseDoc(texts)
+	cfg, err := config.Parse([]byte(doc))
+	if err != nil {
+		for f := range want {
+			r.Add("parse_rejected_by_validation:"+c35PathOf(f), 1)
+		}
+		return
+	}
+	// keep only the cores that really are in the loaded configuration, at the expected field
+	cores := map[string]string{}
+	c35Walk(reflect.ValueOf(cfg).Elem(), "", "", func(l c35Leaf) {
+		if core, ok := want[l.Inst]; ok && l.V.Kind() == reflect.String && strings.Contains(l.V.String(), core) {
+			cores[l.Inst] = core
+			if strings.HasPrefix(l.V.String(), "${") && strings.HasSuffix(l.V.String(), "}") || strings.HasPrefix(l.V.String(), "$"+core) {
+				r.Add("parse_secrets_left_as_unexpanded_reference", 1)
+			}
+			r.Add("parse_secret_reached_field:"+l.Path, 1)
+		}
+	}, map[string]bool{})
+	if len(cores) != len(want) {
+		r.Add("parse_secret_not_found_in_loaded_config", len(want)-len(cores))
+	}
+	if len(cores) == 0 {
+		return
+	}
+	r.Add("parse_configs_judged", 1)
+	rebuild := func() *config.Config {
+		c, err := config.Parse([]byte(doc))
+		if err != nil {
+			return &config.Config{}
+		}
+		return c
+	}
+	c35JudgeConfig(r, "parse", ci, cfg, cores, rebuild, 1, 0)
 }
